@@ -513,12 +513,12 @@ pub fn lag(ctx: &Ctx) -> Stats {
     st
 }
 
-/// many partitions under a small descriptor limit: the stage process lowers RLIMIT_NOFILE to 64 and counts inputs whose
-/// memory ceiling asks for 70-160 partitions with 2-6 workers — "independent of partitioning" includes partition counts
+/// many partitions under a small descriptor limit: the stage process lowers RLIMIT_NOFILE to 96 and counts inputs whose
+/// memory ceiling asks for 130-220 partitions with 2-6 workers — "independent of partitioning" includes partition counts
 /// above what the process may keep open at once (the spill writes one partition file at a time per worker)
 pub fn fdlimit(ctx: &Ctx) -> Stats {
     let mut st = Stats::new();
-    let lim = libc::rlimit { rlim_cur: 64, rlim_max: 64 };
+    let lim = libc::rlimit { rlim_cur: 96, rlim_max: 96 };
     let rc = unsafe { libc::setrlimit(libc::RLIMIT_NOFILE, &lim) };
     if rc != 0 {
         st.inconclusive("cannot lower RLIMIT_NOFILE".into());
@@ -533,10 +533,10 @@ pub fn fdlimit(ctx: &Ctx) -> Stats {
         }
         let mut rng = Rng::keyed(ctx.seed, "c07.fdlimit", i);
         let k = rng.usize(5, 15);
-        let nrec = rng.usize(20, 40);
+        let nrec = rng.usize(30, 50);
         let recs: Vec<Rec> = (0..nrec).map(|j| Rec { id: format!("f{}", j), desc: None, seq: (0..rng.usize(60, 140)).map(|_| *rng.pick(b"ACGT")).collect() }).collect();
         let total = total_bases(&recs).max(1);
-        let parts = rng.usize(70, 160) as f64;
+        let parts = rng.usize(130, 220) as f64;
         // n_parts = ceil(8 * data_gb / (2 * ceiling))
         let data_gb = total as f64 / (1u64 << 30) as f64;
         let mem_gb = 8.0 * data_gb / (2.0 * (parts - 0.5));
@@ -544,7 +544,7 @@ pub fn fdlimit(ctx: &Ctx) -> Stats {
         let sc = Scratch::new(ctx, "c07f");
         let inp = write_fa(&sc, &recs);
         let out = sc.subdir("out");
-        let case = Json::obj().set("cfg", cfg.json()).set("records", Json::u(recs.len())).set("partitions_requested", Json::Num(parts)).set("descriptor_limit", Json::u(64));
+        let case = Json::obj().set("cfg", cfg.json()).set("records", Json::u(recs.len())).set("partitions_requested", Json::Num(parts)).set("descriptor_limit", Json::u(96));
         note_current_case(ctx, &case);
         let ctl = Controller::new(Mode::Log, cfg.threads, "ctr.took", "ctr.exit", vec![]);
         let run = run_counter(&inp, &out, &cfg, Some(&ctl));
@@ -557,7 +557,7 @@ pub fn fdlimit(ctx: &Ctx) -> Stats {
         }
     }
     st.set_extra("chunks_x_partitions_seen", shapes_json(&shapes));
-    st.set_extra("rlimit_nofile", Json::u(64));
+    st.set_extra("rlimit_nofile", Json::u(96));
     st
 }
 
